@@ -1,3 +1,34 @@
-//! L3 part of C09 (interrupt services at the end of the address space) -- see cli.rs
+//! L3 part of C09: the console interrupt services (which index the memory from the binary crate, outside the
+//! library) pointed at the last bytes of the address space -- buffers at FFFFh:2..15 and ending exactly at FFFFFh,
+//! strings at FFFEh/FFFFh:0..63 (crossing 2^20 and starting beyond it), input lines longer than the room that is
+//! left, every stdin mode.  Oracle: C18's reference (exit status 0, no panic, every register, flag and memory byte
+//! equal to the reference with addresses reduced mod 2^20).
+use crate::clicheck::*;
 use crate::common::*;
-pub fn run(_ctx: &Ctx) {}
+use serde_json::json;
+
+pub fn run(ctx: &Ctx) {
+    if !crate::cli::cli_available() {
+        ctx.harness_error("CLI binary not built");
+        return;
+    }
+    let n = ctx.tier.pick(300usize, 4_000usize);
+    run_cases(
+        ctx,
+        "c09-int-top",
+        n,
+        crate::c18::top_case_s,
+        |c| match crate::c18::eval(c) {
+            CaseOutcome::Fail { key, what, replay } => CaseOutcome::Fail { key: format!("c09|int-at-top|{}", key), what, replay },
+            CaseOutcome::Pass { nontrivial, classes, digest } => CaseOutcome::Pass { nontrivial, classes: classes.into_iter().map(|c| c.replace("c18/", "c09/int/")).collect(), digest },
+            o => o,
+        },
+        |c| {
+            let b = crate::c18::build(c);
+            json!({"kind":"c09-int-top","source": crate::progs::render_program(&b.prog, &crate::progs::Layout::plain()).text, "stdin": String::from_utf8_lossy(&b.stdin)})
+        },
+    );
+    for k in ["c09/int/buffer-near-or-across-2^20", "c09/int/string-across-2^20", "c09/int/string-starts-at-or-beyond-2^20", "c09/int/line-longer-than-capacity"] {
+        ctx.require_class(k, 10);
+    }
+}
